@@ -207,7 +207,27 @@ class Slicer:
                 return ('residual', b[2][0])
         if k == 'phi':
             return ('phi', tuple(self._field(x, name) for x in v[1]))
+        if k == 'closure_env' and name.isdigit():
+            return self._upvar(v[1], int(name))
         return ('field', v, name)
+
+    def _upvar(self, closure_path, idx):
+        """value captured by a closure, expressed in the terms of the function that creates it"""
+        key = ('upvar', closure_path, idx)
+        if key in self._cache:
+            return self._cache[key]
+        cl = self.prog.fns.get(closure_path)
+        res = ('upvar', closure_path, idx)
+        parent = self.prog.fns.get(cl.parent) if cl else None
+        if parent is not None:
+            for b in parent.blocks:
+                for st in b['s']:
+                    if st[0] == '=' and st[2]['r'] == 'agg' and st[2].get('kind') == 'closure' and st[2]['def'] == closure_path:
+                        ops = st[2]['ops']
+                        if idx < len(ops):
+                            res = self.operand(parent, ops[idx])
+        self._cache[key] = res
+        return res
 
     def _variant(self, v, name):
         if v[0] == 'agg' and v[2] == name:
